@@ -72,6 +72,9 @@ def coap(rnd, opts=None, tkl=None, payload=None, code=None):
         for _ in range(rnd.choice([0, 1, 1, 2, 3, 4])):
             d = rnd.choice(OPT_DELTAS) if rnd.random() < 0.6 else rnd.randint(0, 30)
             l = rnd.choice(OPT_LENS) if rnd.random() < 0.5 else rnd.randint(0, 16)
+            if rnd.random() < 0.12:
+                # both the delta and the length on their 16-bit (or 8-bit) extensions at once: first byte 0xEE, 0xDE, 0xED, 0xDD
+                d, l = rnd.choice([269, 270, 1000, 13, 100]), rnd.choice([269, 270, 300, 13, 100])
             opts.append((d, l))
     options = []
     for d, l in opts:
@@ -258,14 +261,16 @@ def pkt_udp_raw(rnd, dport=None, n=None):
     """UDP datagram to a port that designates no next parser (or one that merely looks like a protocol number): raw payload"""
     dport = rnd.choice(RAW_PORTS) if dport is None else dport
     payload, extra = raw_payload(rnd, dport) if n is None else (rnd.randbytes(n), {})
-    return udp(rnd, payload, csum=lambda x: rnd.randrange(1, 65536), dport=dport), dict(raw=payload, dport=dport, **extra)
+    # the SOURCE port may be one that designates a parser when it is the destination (a reply from a CoAP server, from port 132): it designates nothing
+    sport = rnd.choice([5683, 132, 5683, None, None, None]) if dport not in (5683, 132) else None
+    return udp(rnd, payload, csum=lambda x: rnd.randrange(1, 65536), sport=sport, dport=dport), dict(raw=payload, dport=dport, **extra)
 
 
 def pkt_ipv6_udp_raw(rnd):
     src, dst = rnd.randbytes(16), rnd.randbytes(16)
     dport = rnd.choice(RAW_PORTS)
     payload, extra = raw_payload(rnd, dport)
-    u = udp(rnd, payload, csum=lambda x: udp_checksum_v6(src, dst, x), dport=dport)
+    u = udp(rnd, payload, csum=lambda x: udp_checksum_v6(src, dst, x), sport=(rnd.choice([5683, 132, None, None]) if dport not in (5683, 132) else None), dport=dport)
     return ipv6(rnd, u, 17, src, dst), dict(raw=payload, dport=dport, **extra)
 
 
@@ -273,7 +278,7 @@ def pkt_ipv4_udp_raw(rnd):
     src, dst = rnd.randbytes(4), rnd.randbytes(4)
     dport = rnd.choice(RAW_PORTS)
     payload, extra = raw_payload(rnd, dport)
-    u = udp(rnd, payload, csum=lambda x: udp_checksum_v4(src, dst, x), dport=dport)
+    u = udp(rnd, payload, csum=lambda x: udp_checksum_v4(src, dst, x), sport=(rnd.choice([5683, 132, None, None]) if dport not in (5683, 132) else None), dport=dport)
     return ipv4(rnd, u, 17, src, dst), dict(raw=payload, dport=dport, **extra)
 
 
